@@ -40,48 +40,50 @@ Proof.
   intros d Hd. apply (pl_nomatch _ _ _ Hpl). apply in_block_regexes_list. exact Hd.
 Qed.
 
-Lemma g_dblock_body' l R n doc s m : (exists c rest, l = c :: rest) ->
+Lemma g_dblock_body' l R n doc s m pd : (exists c rest, l = c :: rest) ->
   (forall k, replaceInline_top (S (S (S (S k)))) (ienv_of s) (Some l) para_expand = iret R) -> quiet_default s ->
+  dcore pd = dcore para -> (forall d0, nth 8 (s_dblocks s) d0 = pd) ->
   m = {| m_start := 0; m_end := lenN l; m_groups := [Some l; Some l] |} ->
-  dblock_body (S (S (S (S n)))) doc 8 para m [] s = Ok (($"<p>" ++ R ++ $"</p>", []), s).
+  dblock_body (S (S (S (S n)))) doc 8 pd m [] s = Ok (($"<p>" ++ R ++ $"</p>", []), s).
 Proof.
-  intros (c0 & rest0 & El) Hinl Hq ->. pose proof Hq as (Hd & Hr & Hqt & Hp & Ho).
+  intros (c0 & rest0 & El) Hinl Hq Hpd Hnth ->. pose proof Hq as (Hd & Hr & Hqt & Hp & Ho).
   subst l. remember (c0 :: rest0) as l eqn:El in *.
-  destruct para_facts as (Fname & Fdelim & Fcontent & Fverify & Fopen & Fclose & Fexp & Fre & _).
+  destruct (para_facts_of pd Hpd) as (Fname & Fdelim & Fcontent & Fverify & Fopen & Fclose & Fexp & Fre).
   unfold dblock_body. rewrite Fdelim.
   unfold bind at 1. cbn [grp nth m_groups ret].
-  unfold bind at 1. unfold gets at 1. rewrite (nth_para s Hd).
+  unfold bind at 1. unfold gets at 1. rewrite (Hnth pd).
   cbn [readTo].
   unfold bind at 1.
-  replace (mem (d_name para) unterminated_names) with false by (rewrite Fname; vm_compute; reflexivity).
+  replace (mem (d_name pd) unterminated_names) with false by (rewrite Fname; vm_compute; reflexivity).
   rewrite andb_false_r. cbn [ret tl app].
-  unfold bind at 1. unfold gets at 1. rewrite (nth_para s Hd), Fexp, Ho.
+  unfold bind at 1. unfold gets at 1. rewrite (Hnth pd), Fexp, Ho.
   unfold expand_merge, expand_none. cbn [e_macros e_container e_skip e_spans e_specials truthy].
   replace (match l with [] => [] | _ :: _ => [l] end) with [l] by (rewrite El; reflexivity).
   cbn [app join].
   rewrite Fcontent.
   unfold bind at 1. unfold bind at 1. cbn [ret].
-  unfold bind at 1. unfold gets at 1. rewrite (nth_para s Hd).
-  replace (str_eqb (d_name para) $"html") with false by (rewrite Fname; vm_compute; reflexivity).
+  unfold bind at 1. unfold gets at 1. rewrite (Hnth pd).
+  replace (str_eqb (d_name pd) $"html") with false by (rewrite Fname; vm_compute; reflexivity).
   unfold bind at 1. cbn [ret].
   unfold bind at 1. rewrite Fopen.
   change ($"<p>") with (60 :: $"p>"). rewrite inject_nothing_pending by exact Hp.
   unfold bind at 1. unfold lift.
   pose proof (Hinl n) as Hin. unfold para_expand in Hin. unfold reader, str, char in Hin |- *. rewrite Hin.
   cbn [iret log_msgs bind ret].
-  unfold bind at 1. unfold gets at 1. rewrite (nth_para s Hd), Fclose.
-  replace (str_eqb (d_name para) $"division") with false by (rewrite Fname; vm_compute; reflexivity).
+  unfold bind at 1. unfold gets at 1. rewrite (Hnth pd), Fclose.
+  replace (str_eqb (d_name pd) $"division") with false by (rewrite Fname; vm_compute; reflexivity).
   cbn [andb ret bind modify].
   assert (Es : forall e, e = expand_none -> set_popts s e = s).
   { intros e ->. destruct s; simpl in *. subst. reflexivity. }
   rewrite Es by reflexivity. rewrite app_nil_r. reflexivity.
 Qed.
 
-Lemma g_dblock_body l R n doc s m (Hpl : para_line (ienv_of s) l R) : quiet_default s ->
+Lemma g_dblock_body l R n doc s m pd (Hpl : para_line (ienv_of s) l R) : quiet_default s ->
+  dcore pd = dcore para -> (forall d0, nth 8 (s_dblocks s) d0 = pd) ->
   m = {| m_start := 0; m_end := lenN l; m_groups := [Some l; Some l] |} ->
-  dblock_body (S (S (S (S n)))) doc 8 para m [] s = Ok (($"<p>" ++ R ++ $"</p>", []), s).
+  dblock_body (S (S (S (S n)))) doc 8 pd m [] s = Ok (($"<p>" ++ R ++ $"</p>", []), s).
 Proof.
-  intros Hq Hm. apply (g_dblock_body' l R n doc s m); auto.
+  intros Hq Hpd Hnth Hm. apply (g_dblock_body' l R n doc s m pd); auto.
   - destruct (pl_first _ _ _ Hpl) as (c & rest & E & _). eauto.
   - exact (pl_inline _ _ _ Hpl).
 Qed.
@@ -93,26 +95,24 @@ Lemma g_stage_para' l R n doc s : (exists c rest, l = c :: rest) -> nlfree l ->
 Proof.
   intros Hfirst Hnl Hinl Hnom Hq. pose proof Hq as (Hd & _).
   unfold dblocks_render. unfold bind at 1. unfold gets at 1.
-  destruct para_facts as (Fname & _ & _ & Fverify & _ & _ & _ & _ & Fsplit & Flen).
-  assert (Elen : length (s_dblocks s) = 9%nat) by (rewrite Hd, Fsplit, app_length, Flen; reflexivity).
-  rewrite Elen.
-  pose proof (dblock_loop_skip (S (S (S (S n)))) doc l s (removelast dblocks_default) [] [para] 1) as Sk.
-  cbn [length app] in Sk. rewrite Flen in Sk.
+  destruct (std_para s Hd) as (pre & pd & Esplit & Lpre & Hpd & Hnth & En & Hpre).
+  destruct (para_facts_of pd Hpd) as (Fname & _ & _ & Fverify & _ & _ & _ & Fre).
+  rewrite (std_length _ Hd).
+  pose proof (dblock_loop_skip (S (S (S (S n)))) doc l s pre [] [pd] 1) as Sk.
+  cbn [length app] in Sk. rewrite Lpre in Sk.
   change (8 + 1)%nat with 9%nat in Sk. change (0 + 8)%nat with 8%nat in Sk.
   unfold reader, str, char in Sk |- *. rewrite Sk.
   - cbn [dblock_loop]. unfold bind at 1. unfold gets at 1.
-    assert (En : nth_error (s_dblocks s) 8 = Some para).
-    { rewrite Hd, Fsplit. rewrite nth_error_app2 by (rewrite Flen; lia). rewrite Flen. reflexivity. }
-    rewrite En. cbn [andb].
+    rewrite En. cbn [andb]. rewrite Fre.
     rewrite (para_match l) by exact Hnl.
     unfold grp0, grp_s, grp. cbn [nth m_groups].
     rewrite Fname. replace (str_eqb $"paragraph" $"paragraph") with true by reflexivity.
     unfold db_verify. rewrite Fverify. cbn [negb].
-    pose proof (g_dblock_body' l R n doc s _ Hfirst Hinl Hq eq_refl) as Eb.
+    pose proof (g_dblock_body' l R n doc s _ pd Hfirst Hinl Hq Hpd Hnth eq_refl) as Eb.
     destruct Hfirst as (c & rest & El). subst l.
     unfold bind at 1. unfold reader, str, char in Eb |- *. rewrite Eb. reflexivity.
-  - rewrite Hd. exact Fsplit.
-  - exact Hnom.
+  - exact Esplit.
+  - intros d Hdin. destruct (Hpre d Hdin) as (d' & Hd' & ->). apply Hnom. exact Hd'.
 Qed.
 
 Lemma g_stage_para l R n doc s (Hpl : para_line (ienv_of s) l R) : quiet_default s ->
